@@ -432,8 +432,24 @@ def _classify_multi(fn):
         stores = [s for s in oc.effects if isinstance(s, ast.Assign) and norm(s.targets[0]) == DK]
         appends = [s for s in oc.effects if isinstance(s, ast.Expr) and isinstance(s.value, ast.Call)
                    and isinstance(s.value.func, ast.Attribute) and s.value.func.attr == 'append']
+        # `vals = D[K] if K in D else []`: the conditional expression decided under this valuation
+        from ..ladder import decide_ifexps as _dif
+        eff2 = []
+        for s_ in oc.effects:
+            if isinstance(s_, ast.Assign) and isinstance(s_.value, ast.IfExp):
+                import copy as _copy
+                s2 = _copy.copy(s_)
+                try:
+                    s2.value = _dif(s_.value, {'%s in %s' % (K, D): present})
+                except Exception:
+                    pass
+                eff2.append(s2)
+            else:
+                eff2.append(s_)
+        oc_effects = eff2
+        stores = [s for s in oc_effects if isinstance(s, ast.Assign) and norm(s.targets[0]) == DK]
         if present:
-            reads = [s for s in oc.effects if isinstance(s, ast.Assign) and norm(s.value) == DK]
+            reads = [s for s in oc_effects if isinstance(s, ast.Assign) and norm(s.value) == DK]
             if reads and appends and stores and norm(appends[0].value.func.value) == norm(reads[0].targets[0]) \
                     and norm(stores[-1].value) == norm(reads[0].targets[0]):
                 out[present] = 'append-to-existing'
@@ -443,7 +459,13 @@ def _classify_multi(fn):
             else:
                 out[present] = 'other: ' + ' ; '.join(texts[-3:])
         else:
+            # `D[K] = [v]`, or an empty list bound to a local, appended to once and stored under the key
+            empties = [s for s in oc_effects if isinstance(s, ast.Assign) and isinstance(s.value, ast.List) and not s.value.elts
+                       and isinstance(s.targets[0], ast.Name)]
             if stores and isinstance(stores[-1].value, ast.List) and len(stores[-1].value.elts) == 1:
+                out[present] = 'new-single-element-list'
+            elif stores and empties and isinstance(stores[-1].value, ast.Name) and stores[-1].value.id == empties[-1].targets[0].id and \
+                    len([a for a in appends if norm(a.value.func.value) == empties[-1].targets[0].id]) == 1:
                 out[present] = 'new-single-element-list'
             else:
                 out[present] = 'other: ' + ' ; '.join(texts[-3:])
